@@ -111,23 +111,35 @@ impl Obs {
     pub fn count(&mut self, key: &str) {
         *self.hist.entry(key.to_string()).or_insert(0) += 1;
     }
+    /// At most `PER_KEY` violations are RECORDED per (kind, op) pair — never a global cap: thousands of hits of a
+    /// known finding must not crowd out the first hit of a new kind (or of a known kind reached through another op).
+    /// Every hit is counted in the histogram (`violation:<kind>`).
     pub fn violation(&mut self, kind: &str, case: &str, detail: &str) {
-        if self.violations.len() < 200 {
+        let key = format!("recorded:{}:{}", kind, case.split(' ').next().unwrap_or(""));
+        let n = self.hist.get(&key).copied().unwrap_or(0);
+        if n < PER_KEY && self.violations.len() < TOTAL_CAP {
             self.violations.push(Violation { kind: kind.to_string(), case: case.to_string(), detail: detail.to_string() });
+            *self.hist.entry(key).or_insert(0) += 1;
         }
         self.count(&format!("violation:{}", kind));
     }
     pub fn merge(&mut self, other: Obs) {
         for (k, v) in other.hist {
+            if k.starts_with("recorded:") { continue; }
             *self.hist.entry(k).or_insert(0) += v;
         }
         for v in other.violations {
-            if self.violations.len() < 200 {
+            let key = format!("recorded:{}:{}", v.kind, v.case.split(' ').next().unwrap_or(""));
+            let n = self.hist.get(&key).copied().unwrap_or(0);
+            if n < PER_KEY && self.violations.len() < TOTAL_CAP {
                 self.violations.push(v);
+                *self.hist.entry(key).or_insert(0) += 1;
             }
         }
     }
 }
+const PER_KEY: u64 = 40;
+const TOTAL_CAP: usize = 4000;
 
 pub fn silence_panics() {
     std::panic::set_hook(Box::new(|_| {}));
